@@ -11,7 +11,7 @@
     (C06_limit_partial).  [hits_of] is the model's "tables in scope having the
     column"; that it is the set the DATABASE would consult is the part decided
     per case against Spec/PgScope (it fails for the known-finding classes). *)
-From Verif Require Import Model.Compile Spec.PgScope Judge.JQ Judge.J02 Judge.J06 Proofs.ParamsFacts Proofs.ParamTypeFacts.
+From Verif Require Import Model.Compile Spec.PgScope Judge.JQ Judge.J02 Judge.J06 Proofs.ParamsFacts Proofs.ParamTypeFacts Proofs.SelectRefine Proofs.ParamRefine.
 Open Scope list_scope.
 
 Definition C06_full_statement : Prop :=
@@ -22,67 +22,92 @@ Definition C06_full_statement : Prop :=
     check_param sc (match sc with it :: _ => si_cols it | [] => [] end) false (q_params q) pc = 0%N.
 
 (** LIMIT / OFFSET pseudo-parents always give a non-null integer, whatever the catalog. *)
-Theorem C06_limit_partial : forall e tables aliases dt names r,
+Theorem C06_limit_partial : forall e tables bare aliases dt names r,
   pr_parent r = PLimitCount \/ pr_parent r = PLimitOffset ->
-  exists nm, resolve_one e tables aliases dt names r = Ok [mkP (ref_number r) (Some (mkQC nm "integer" true false "" None))].
+  exists nm, resolve_one e tables bare aliases dt names r = Ok [mkP (ref_number r) (Some (mkQC nm "integer" true false "" None))].
 Proof.
-  intros e tables aliases dt names r [H|H]; unfold resolve_one; rewrite H; eexists; reflexivity.
+  intros e tables bare aliases dt names r [H|H]; unfold resolve_one; rewrite H; eexists; reflexivity.
 Qed.
 Print Assumptions C06_limit_partial.
 
 (** col OP $n, unqualified: the parameter takes the type, nullability and
     array-ness of the one column in scope with that name, and its name *)
-Theorem C06_compare_partial : forall e tables aliases dt names r n lref rest key t col,
+Theorem C06_compare_partial : forall e tables bare aliases dt names r n lref rest key t col,
   pr_parent r = PNode n -> kind_of n = "A_Expr"%string ->
   search (is_kind "ColumnRef") (kid "Lexpr" n) = lref :: rest ->
   string_items (kid "Fields" lref) = [key] ->
   hits_of (env_cat e) tables tables key = [(t, col)] ->
-  resolve_one e tables aliases dt names r = Ok [param_of_column names (ref_number r) key t col].
+  resolve_one e tables bare aliases dt names r = Ok [param_of_column names (ref_number r) key t col].
 Proof. exact compare_unqualified. Qed.
 Print Assumptions C06_compare_partial.
 
-Theorem C06_compare_missing_partial : forall e tables aliases dt names r n lref rest key,
+Theorem C06_compare_missing_partial : forall e tables bare aliases dt names r n lref rest key,
   pr_parent r = PNode n -> kind_of n = "A_Expr"%string ->
   search (is_kind "ColumnRef") (kid "Lexpr" n) = lref :: rest ->
   string_items (kid "Fields" lref) = [key] ->
   hits_of (env_cat e) tables tables key = [] ->
-  resolve_one e tables aliases dt names r = err_at (loc_of lref) (e_col_missing key).
+  resolve_one e tables bare aliases dt names r = err_at (loc_of lref) (e_col_missing key).
 Proof. exact compare_unqualified_missing. Qed.
 Print Assumptions C06_compare_missing_partial.
 
-Theorem C06_compare_ambiguous_partial : forall e tables aliases dt names r n lref rest key h1 h2 hs,
+Theorem C06_compare_ambiguous_partial : forall e tables bare aliases dt names r n lref rest key h1 h2 hs,
   pr_parent r = PNode n -> kind_of n = "A_Expr"%string ->
   search (is_kind "ColumnRef") (kid "Lexpr" n) = lref :: rest ->
   string_items (kid "Fields" lref) = [key] ->
   hits_of (env_cat e) tables tables key = h1 :: h2 :: hs ->
-  resolve_one e tables aliases dt names r = err_at (loc_of lref) (e_col_ambiguous key).
+  resolve_one e tables bare aliases dt names r = err_at (loc_of lref) (e_col_ambiguous key).
 Proof. exact compare_unqualified_ambiguous. Qed.
 Print Assumptions C06_compare_ambiguous_partial.
 
-Theorem C06_alias_partial : forall e tables aliases dt names r n lref rest alias key orig col,
+Theorem C06_alias_partial : forall e tables bare aliases dt names r n lref rest alias key orig col,
   pr_parent r = PNode n -> kind_of n = "A_Expr"%string ->
   search (is_kind "ColumnRef") (kid "Lexpr" n) = lref :: rest ->
   string_items (kid "Fields" lref) = [alias; key] -> alias <> ""%string ->
   assoc aliases alias = Some orig ->
   typemap_lookup (env_cat e) tables (tn_schema orig) (tn_name orig) key = Some col ->
-  resolve_one e tables aliases dt names r = Ok [param_of_column names (ref_number r) key orig col].
+  resolve_one e tables bare aliases dt names r = Ok [param_of_column names (ref_number r) key orig col].
 Proof. exact compare_aliased. Qed.
 Print Assumptions C06_alias_partial.
 
-Theorem C06_cast_partial : forall e tables aliases dt names r n col,
+Theorem C06_cast_partial : forall e tables bare aliases dt names r n col,
   pr_parent r = PNode n -> kind_of n = "TypeCast"%string -> is_nil (kid "TypeName" n) = false ->
   to_column (kid "TypeName" n) = Ok col ->
-  resolve_one e tables aliases dt names r
+  resolve_one e tables bare aliases dt names r
   = Ok [mkP (ref_number r) (Some (mkQC (param_name names (ref_number r) (qc_name col)) (qc_dt col) (qc_nn col) (qc_arr col) "" None))].
 Proof. exact cast_type. Qed.
 Print Assumptions C06_cast_partial.
 
-Theorem C06_target_partial : forall e tables aliases dt names r n key col,
+Theorem C06_target_partial : forall e tables bare aliases dt names r n key col,
   pr_parent r = PNode n -> kind_of n = "ResTarget"%string -> str_opt "Name" n = Some key ->
   is_nil (pr_rv r) = false ->
   typemap_lookup (env_cat e) tables (tn_schema (table_of_rangevar (pr_rv r))) (tn_name (table_of_rangevar (pr_rv r))) key = Some col ->
-  resolve_one e tables aliases dt names r
+  resolve_one e tables bare aliases dt names r
   = Ok [param_of_column names (ref_number r) key
           (mkTN "" (tn_schema (table_of_rangevar (pr_rv r))) (tn_name (table_of_rangevar (pr_rv r)))) col].
 Proof. exact target_column. Qed.
 Print Assumptions C06_target_partial.
+
+(** ** Refinement to the reference semantics: a comparison  col OP $n  with an
+    unqualified column, in a statement over base tables.  sqlc looks the column
+    up in the tables of the statement's range vars; the reference semantics
+    resolves the name in the scope built from the same range vars
+    (SelectRefine.spec_scope).  For every catalog whose tables have pairwise
+    distinct column names: sqlc types the parameter after exactly the column the
+    reference semantics resolves the name to (its data type, nullability,
+    array-ness, and its name unless the user named the parameter), and rejects
+    exactly when that resolution fails (no such column / ambiguous). *)
+Theorem C06_compare_refines_partial : forall (e : env) (rvs : list node),
+  (forall t tb, cat_get_table (env_cat e) t = Some tb -> NoDup (map col_name (tab_cols tb))) ->
+  forall sc bare aliases dt names r n lref rest key,
+  spec_scope (env_cat e) rvs = POk sc ->
+  pr_parent r = PNode n -> kind_of n = "A_Expr"%string ->
+  search (is_kind "ColumnRef") (kid "Lexpr" n) = lref :: rest ->
+  string_items (kid "Fields" lref) = [key] ->
+  match resolve_unqualified [sc] key with
+  | POk x => exists t col, src_col x = Some col /\
+               resolve_one e (map table_of_rangevar rvs) bare aliases dt names r
+               = Ok [param_of_column names (ref_number r) key t col]
+  | PErr _ => exists m, resolve_one e (map table_of_rangevar rvs) bare aliases dt names r = Err m
+  end.
+Proof. exact compare_refines. Qed.
+Print Assumptions C06_compare_refines_partial.
